@@ -3910,6 +3910,14 @@ def _sort_mixed(values):
     return values.take(locs)
 
 
+def _keyed_by_column(arg):
+    # As an argument of a DataFrame method, a dict or a Series is looked up by
+    # column label and a frame is aligned on its columns
+    if isinstance(arg, Expr):
+        return arg.ndim == 2
+    return isinstance(arg, dict) or is_series_like(arg) or is_dataframe_like(arg)
+
+
 def plain_column_projection(expr, parent, dependents, additional_columns=None):
     column_union = determine_column_projection(
         expr, parent, dependents, additional_columns=additional_columns
@@ -3919,6 +3927,13 @@ def plain_column_projection(expr, parent, dependents, additional_columns=None):
     elif column_union not in expr.frame.columns:
         # we are accesing the index
         column_union = []
+    elif isinstance(expr, (Elemwise, MaybeAlignPartitions)) and any(
+        _keyed_by_column(op) for op in expr.operands[1:]
+    ):
+        # The operands are the arguments of a pandas method. A Series looks such
+        # an argument up by row label (or rejects it): the operation has to keep
+        # a frame, the Series is selected afterwards
+        column_union = [column_union]
 
     if column_union == expr.frame.columns:
         return
